@@ -23,7 +23,7 @@ from common import coq_eval, frac, close, qlit, TOL_ARITH
 
 PROP_FILE = 'theories/Properties/C20.v'
 MODEL_FILES = ['theories/Model/SuperLearner.v', 'theories/Model/Stepwise.v']
-GEN_GROUPS = []
+GEN_GROUPS = ['slcoef']
 RULE = ('SuperLearner: random (n 12..40, folds 2..10 incl. folds not dividing n and folds = n, 1..5 spy candidates with or '
         'without predict_proba, loss L2 / NLogLik, discrete or not, binary / continuous y), a stream of degenerate targets '
         '(y identically 0) and of rejected fold numbers (1, n+1); predictions requested for 5 new rows. '
